@@ -844,8 +844,8 @@ def _stale_loop_counters(ctx):
                     for a in use["a"]:
                         if (local_ref(strip_casts(peel(a))) or {}).get("d") == d and (strip_casts(peel(a)) or {}).get("k") == "ref":
                             pos_arg = a
-                elif use.get("k") in ("idx", "sub", "index"):
-                    ix = use.get("i2") or use.get("y") or use.get("idx")
+                elif use.get("k") == "idx":
+                    ix = use.get("x")
                     if ix is not None and (local_ref(strip_casts(peel(ix))) or {}).get("d") == d:
                         pos_arg = ix
                 if pos_arg is None:
